@@ -430,6 +430,14 @@ def stepCore (e : Env) (line : String) : Env × String :=
       let some γ := parseRat g | throw "bad rat"
       let some n := ns.toNat? | throw "bad n"
       pure (e, showSpec (Pepit.Method.gdl1 L γ n))
+    | "spec.gd" :: _ :: g :: ns :: _ =>
+      let some γ := parseRat g | throw "bad rat"
+      let some n := ns.toNat? | throw "bad n"
+      pure (e, showSpec (Pepit.Method.gd γ n))
+    | "spec.ppm" :: _ :: g :: ns :: _ =>
+      let some γ := parseRat g | throw "bad rat"
+      let some n := ns.toNat? | throw "bad n"
+      pure (e, showSpec (Pepit.Method.ppm γ n))
     | "spec.subg" :: _ :: g :: ns :: _ =>
       let some γ := parseRat g | throw "bad rat"
       let some n := ns.toNat? | throw "bad n"
